@@ -2212,3 +2212,35 @@ C07_MSE = dict(
     ],
 )
 ALL += [C07_MSE]
+
+# ChunkedDistanceMatrix.save / load: the HDF5 file is the record `h5cdm V` of its four datasets (Model/DistMat.v); the h5py
+# calls are primitives (one call each): create_dataset stores an array under a name, f[name][:] / f[name][0] read it.
+_H5C = "(h5cdm V)"
+C07_CDM_SAVE = dict(
+    _C07M, func="save", name="src_cdm_save", pyparams=["self", "filename"],
+    params=_VT + [("self", _CDM)], returns=_H5C, vars={"f": _H5C},      # returns what has been written to `filename`
+    contexts=[("h5py.File(filename, 'w')", "h5cdm_new V", _H5C)],
+    prims=_CDM_NUMPY + [("np.array([__x])", "[{x}]", "list Z", {"x": "Z"})],
+    effects=[("f.create_dataset('row_indices', data=__d, compression='gzip')", "f'", "set_f_rows {state} {d}"),
+             ("f.create_dataset('col_indices', data=__d, compression='gzip')", "f'", "set_f_cols {state} {d}"),
+             ("f.create_dataset('values', data=__d, compression='gzip')", "f'", "set_f_vals {state} {d}"),
+             ("f.create_dataset('size', data=__d, compression='gzip')", "f'", "set_f_size {state} {d}")],
+    implicit_return="{f}",
+)
+C07_CDM_LOAD = dict(
+    _C07M, func="load", name="src_cdm_load", pyparams=["cls", "filename"],
+    params=_VT + [("h5", _H5C)], returns=_CDM,                          # h5 = what the file at `filename` holds
+    vars={"f": _H5C, "row_indices": "list Z", "col_indices": "list Z", "values": "list V", "size": "Z", "instance": _CDM},
+    contexts=[("h5py.File(filename, 'r')", "h5", _H5C)],
+    prims=[("__f['row_indices'][:]", "!h5_dataset (f_rows {f})", "list Z", {"f": _H5C}),
+           ("__f['col_indices'][:]", "!h5_dataset (f_cols {f})", "list Z", {"f": _H5C}),
+           ("__f['values'][:]", "!h5_dataset (f_vals {f})", "list V", {"f": _H5C}),
+           ("__f['size'][0]", "!h5_first (f_size {f})", "Z", {"f": _H5C}),
+           # cls(size, chunk_size=c): a new object initialised by the translated __init__ (defaults n_chunks=1, chunk_index=0)
+           ("cls(__s, chunk_size=__c)", "!src_cdm_init V vzero visz (cdm_blank V) {s} 1 0 (Some {c})", _CDM, {"s": "Z", "c": "Z"}),
+           ] + _CDM_NUMPY,
+    assign_effects=[("instance.row_indices[:__k] = __v", "instance'", "!cdm_store_rows {state} {k} {v}"),
+                    ("instance.col_indices[:__k] = __v", "instance'", "!cdm_store_cols {state} {k} {v}"),
+                    ("instance.values[:__k] = __v", "instance'", "!cdm_store_vals {state} {k} {v}")],
+)
+ALL += [C07_CDM_SAVE, C07_CDM_LOAD]
